@@ -559,6 +559,33 @@ def step (line : String) : String :=
   | ["REV", g] => encGraphCanon (decGraph g).reversed
   | ["CLONE", g] => encGraphCanon (decGraph g).clone
   | ["MKG", v, e] => encGraphCanon (Graph.mk (natList v) (decPairs e))
+  | ["GRAPHOPS", g, ops] =>
+      -- a history of `add_node v` (`n v`) / `add_edge u v` (`e u v`) on a graph: one answer per operation, then the graph
+      let step (st : Graph Nat × List String) (op : String) : Graph Nat × List String :=
+        match (op.splitOn " ").filter (· != "") with
+        | ["n", v] =>
+          (match v.toNat? with
+           | some v => (match st.1.addNode v with
+                        | .ok g' => (g', "ok" :: st.2)
+                        | .error e => (st.1, ("ERR " ++ e.name) :: st.2))
+           | none => (st.1, "bad-op" :: st.2))
+        | ["e", u, v] =>
+          (match u.toNat?, v.toNat? with
+           | some u, some v => (match st.1.addEdge u v with
+                                | .ok g' => (g', "ok" :: st.2)
+                                | .error e => (st.1, ("ERR " ++ e.name) :: st.2))
+           | _, _ => (st.1, "bad-op" :: st.2))
+        | _ => (st.1, "bad-op" :: st.2)
+      let r := ((ops.splitOn ";").filter (· != "")).foldl step (decGraph g, [])
+      " ; ".intercalate r.2.reverse ++ " => " ++ encGraphCanon r.1
+  | ["KACCESS", s, s0, r, l, probes] =>
+      -- `labels(x)` / `next(x)` of a constructed structure for every probe x (states and non-states)
+      (match KripkeD.make (natList s) (natList s0) (decPairs r) (decLabels l) true (fun _ => false) with
+       | .error e => "ERR " ++ e.name
+       | .ok K =>
+         " ; ".intercalate ((natList probes).map (fun x =>
+           encExcept (fun ls => " ".intercalate (ls.toArray.qsort (· < ·)).toList) (K.labelsAt x) ++ " / " ++
+           encExcept encSet (K.nextAt x))))
   | ["KRIPKE", s, s0, r, l, flags, bad] =>
       encExcept encKripkeD (KripkeD.make (natList s) (natList s0) (decPairs r) (decLabels l)
         (flags != "nodict") (fun v => (natList bad).contains v))
